@@ -89,6 +89,10 @@ type Interp struct {
 	depth    int
 	symOrder bool
 	inInit   bool
+	jsonBlobs map[*Backing]*jsonBlob
+	panicVal  Value
+	recovered bool
+	panicking bool
 	wraps    map[string]Iface
 
 	trace []string
@@ -685,14 +689,54 @@ func (in *Interp) callFunction(fn *ssa.Function, args []Value, binds []Value, ca
 	for i, fv := range fn.FreeVars {
 		fr.env[fv] = binds[i]
 	}
-	block := fn.Blocks[0]
+	ret, pa := in.runFrom(fr, fn.Blocks[0])
+	if pa == nil {
+		return ret
+	}
+	// a Go panic reached a frame with pending deferred calls: run them; one may recover
+	pv := in.panicVal
+	if pv == nil {
+		pv = in.newError("runtime error: " + pa.Msg)
+	}
+	in.panicVal, in.panicking, in.recovered = pv, true, false
+	for i := len(fr.defers) - 1; i >= 0; i-- {
+		d := fr.defers[i]
+		fr.defers = fr.defers[:i]
+		d()
+	}
+	in.panicking = false
+	if in.recovered && fn.Recover != nil {
+		in.recovered = false
+		in.panicVal = nil
+		ret2, pa2 := in.runFrom(fr, fn.Recover)
+		if pa2 != nil {
+			panic(*pa2)
+		}
+		return ret2
+	}
+	panic(*pa)
+}
+
+// runFrom executes blocks starting at b; a Go panic (not other path aborts) is
+// returned instead of propagated when the frame has deferred calls pending.
+func (in *Interp) runFrom(fr *frame, b *ssa.BasicBlock) (ret Value, pa *pathAbort) {
+	defer func() {
+		if r := recover(); r != nil {
+			a, ok := r.(pathAbort)
+			if ok && a.Kind == OPanic && len(fr.defers) > 0 {
+				pa = &a
+				return
+			}
+			panic(r)
+		}
+	}()
 	var prev *ssa.BasicBlock
 	for {
-		next, ret, done := in.runBlock(fr, block, prev)
+		next, rv, done := in.runBlock(fr, b, prev)
 		if done {
-			return ret
+			return rv, nil
 		}
-		prev, block = block, next
+		prev, b = b, next
 	}
 }
 
@@ -749,6 +793,7 @@ func (in *Interp) runBlock(fr *frame, b *ssa.BasicBlock, prev *ssa.BasicBlock) (
 			}
 		case *ssa.Panic:
 			v := in.get(fr, x.X)
+			in.panicVal = v
 			in.goPanic("explicit panic in %s: %s", fr.fn.Name(), in.describePanic(v))
 		case *ssa.RunDefers:
 			for i := len(fr.defers) - 1; i >= 0; i-- {
@@ -1560,6 +1605,13 @@ func (in *Interp) builtin(fr *frame, name string, args []Value) Value {
 	case "print", "println":
 		return nil
 	case "recover":
+		if in.panicking && !in.recovered {
+			in.recovered = true
+			if iv, ok := in.panicVal.(Iface); ok {
+				return iv
+			}
+			return Iface{T: types.Typ[types.String], V: concStr(in.tf, "panic")}
+		}
 		return Iface{}
 	case "min", "max":
 		a, b := args[0].(IntV), args[1].(IntV)
